@@ -5,6 +5,9 @@ from harness import shims, xmlmodel
 from harness.common import S, build_survey, child_elements, elements, text_of, tree
 from vf.registry import ob, specialise
 
+import pyxform.parsing.instance_expression as _ie0  # noqa: E402
+
+_IE_FIND_ORIG = _ie0.find_boundaries  # the tree's own boundary finder (before S2/S9), used by h.instance-exprs
 shims.standard()
 shims.s5_xml_parser()
 shims.s9_no_instance_boundaries()
@@ -402,4 +405,72 @@ specialise(
     symbolic="itext entry text of n symbolic printable ASCII characters; whether the entry written just before it (sibling choice / previous question) holds a ${reference} (boolean)",
     bounds="n fixed per instance (1-2); channels: choice label, question label, hint, second-language choice label; one form with a dynamic choice list",
     weight=80,
+)
+
+
+# ---- h: texts with several instance() expressions, used more than once (round 3) ----------------------------
+E1X = "instance('l1')/root/item[name='a']/label"
+E2X = "instance('l1')/root/item[name='b']/label"
+
+
+def c06_instance_exprs(where: int, n_expr: int, l0: int) -> bool:
+    """
+    vpre: 1 <= n_expr <= 3
+    vpre: 97 <= l0 <= 122
+    vpost: _ == True
+    """
+    import pyxform.parsing.instance_expression as ie
+
+    # the text that holds the expressions is concrete (the boundary finder runs the C lexer); a tracer rides next to it
+    exprs = [E1X, E2X, E1X][:n_expr]
+    words = ["Xa went on and picked ", " Yb went on and picked ", " Zc went on and picked "]
+    text = "".join(words[i] + exprs[i] for i in range(n_expr)) + " end"
+    q1 = {"type": "select_one l1", "name": "s", "label": S(l0, 83)}
+    n = {"type": "note", "name": "t"}
+    if where == 0:  # same text as label and hint
+        n["label"] = text
+        n["hint"] = text
+    elif where == 1:  # same text in two languages
+        n["label::L1"] = text
+        n["label::L2"] = text
+    else:  # same text on two questions
+        n["label"] = text
+    rows = [q1, n]
+    if where == 2:
+        rows.append({"type": "note", "name": "u", "label": text})
+    fb = _IE_FIND_ORIG
+    if shims.SYMBOLIC and hasattr(fb, "cache_info"):
+        fb = shims._PyMemo(fb.__wrapped__, 128)  # S12: CrossHair would call an lru_cache wrapper without its cache
+    saved = ie.find_boundaries
+    ie.find_boundaries = fb
+    try:
+        survey, _w, _js = build_survey({"survey": rows, "choices": [{"list_name": "l1", "name": "a", "label": "A"}, {"list_name": "l1", "name": "b", "label": "B"}]})
+        root = survey.xml()
+    finally:
+        ie.find_boundaries = saved
+    # every element that carries the text: children alternate words / <output value=expr>
+    carriers = [e for e in elements(root) if e.tagName in ("label", "hint", "value") and len(elements(e, "output")) > 0]
+    want_n = {0: 2, 1: 2, 2: 2}[where]
+    if len(carriers) != want_n:
+        return False
+    for e in carriers:
+        outs = [c for c in child_elements(e) if c.tagName == "output"]
+        if [o.getAttribute("value").strip() for o in outs] != exprs:
+            return False
+        if text_of(e).replace(" ", "") != ("".join(words[:n_expr]) + " end").replace(" ", ""):
+            return False
+    return True
+
+
+specialise(
+    "C06",
+    "h.instance-exprs",
+    c06_instance_exprs,
+    {"where": [0, 1, 2]},
+    timeout=300,
+    kernel=("pyxform.parsing.instance_expression:find_boundaries", "pyxform.parsing.instance_expression:replace_with_output", "pyxform.survey:Survey.insert_output_values"),
+    shims=("S1", "S2", "S4", "S5", "S12 (find_boundaries only, when the tree memoises it)"),
+    symbolic="number of instance() expressions in the text (1-3), tracer character on a neighbouring label",
+    bounds="the same authored text used twice in one form (label+hint / two languages / two questions, fixed per instance): every use yields the authored words as text and each expression as one output element, in order",
+    weight=30,
 )
